@@ -6,11 +6,11 @@ Local Open Scope Z_scope.
 (* For EVERY annotation t (no depth bound), every instance v of it, every transport (dict, json, yaml, pickle), every
    iteration order of sets: decoding the transported encoding gives back v itself — `= Ok v` together with
    `has_type v t` is "each field comes back with its declared type".  Side conditions (boolean, they name the excluded
-   inputs): union_safe (no earlier Union member accepts the value's encoding), ints_small (|z| < 2^1024 - 2^970),
+   inputs): union_safe (no earlier Union member accepts the value's encoding),
    plain_value (no OrderedDict). *)
 Theorem C05_roundtrip_partial : forall sigma encf decf, (forall l, Permutation (sigma l) l) ->
   forall t v tr,
-  ser_type DC_TYPE_KEY t = true /\ has_type v t = true /\ plain_value v = true /\ ints_small v = true ->
+  ser_type DC_TYPE_KEY t = true /\ has_type v t = true /\ plain_value v = true ->
   union_safe (decode_gen decf) (encode_gen sigma encf) t v = true ->
   bind (run_transport tr (to_dict_gen sigma encf v)) (decode_gen decf t) = Ok v.
 Proof. exact roundtrip_all. Qed.
@@ -19,7 +19,7 @@ Print Assumptions C05_roundtrip_partial.
 (* save(path) / load(path): the codec is looked up in the regenerated suffix table *)
 Theorem C05_file : forall sigma encf decf, (forall l, Permutation (sigma l) l) ->
   forall t v sfx tr, transport_of_suffix sfx = Some tr ->
-  ser_type DC_TYPE_KEY t = true /\ has_type v t = true /\ plain_value v = true /\ ints_small v = true ->
+  ser_type DC_TYPE_KEY t = true /\ has_type v t = true /\ plain_value v = true ->
   union_safe (decode_gen decf) (encode_gen sigma encf) t v = true ->
   bind (run_transport tr (to_dict_gen sigma encf v)) (decode_gen decf t) = Ok v.
 Proof. exact roundtrip_file. Qed.
@@ -32,14 +32,14 @@ Print Assumptions C05_suffix_table.
 
 (* the statement without union_safe is false of the faithful model: first-success order is lossy *)
 Theorem C05_roundtrip_refuted :
-  ~ (forall t v, ser_type DC_TYPE_KEY t = true /\ has_type v t = true /\ plain_value v = true /\ ints_small v = true ->
+  ~ (forall t v, ser_type DC_TYPE_KEY t = true /\ has_type v t = true /\ plain_value v = true ->
      bind (run_transport TrDict (to_dict_gen sigma_id no_encf v)) (decode_gen no_decf t) = Ok v).
 Proof. exact roundtrip_full_refuted. Qed.
 Print Assumptions C05_roundtrip_refuted.
 
 (* "a value that already is an instance of one member of a Union comes back unchanged" *)
 Theorem C05_union_full_refuted :
-  ~ (forall ts v, forallb union_member ts = true -> has_type v (TUnion ts) = true -> ints_small v = true ->
+  ~ (forall ts v, forallb union_member ts = true -> has_type v (TUnion ts) = true ->
      decode_gen no_decf (TUnion ts) (encode_gen sigma_id no_encf v) = Ok v).
 Proof. exact union_full_refuted_int_str. Qed.
 Print Assumptions C05_union_full_refuted.
@@ -49,13 +49,15 @@ Theorem C05_union_witnesses :
 Proof. exact (conj union_int_str_witness union_int_float_witness). Qed.
 Print Assumptions C05_union_witnesses.
 
-(* the statement without ints_small is false: _decode_int evaluates float(v) *)
-Theorem C05_huge_int_refuted :
-  exists t v, ser_type DC_TYPE_KEY t = true /\ has_type v t = true /\ plain_value v = true /\
-              union_safe (decode_gen no_decf) (encode_gen sigma_id no_encf) t v = true /\
-              bind (run_transport TrDict (to_dict_gen sigma_id no_encf v)) (decode_gen no_decf t) = Err (Raise "OverflowError").
-Proof. exact roundtrip_huge_int_refuted. Qed.
-Print Assumptions C05_huge_int_refuted.
+(* ints beyond the float range are inside the theorem (fixed: 72acb4b; _decode_int used to evaluate float(v)) *)
+Theorem C05_huge_int :
+  (ser_type DC_TYPE_KEY (wit_dc TInt) = true /\ has_type (wit_val (VInt (10 ^ 400))) (wit_dc TInt) = true /\
+   plain_value (wit_val (VInt (10 ^ 400))) = true) /\
+  union_safe (decode_gen no_decf) (encode_gen sigma_id no_encf) (wit_dc TInt) (wit_val (VInt (10 ^ 400))) = true /\
+  bind (run_transport TrJson (to_dict_gen sigma_id no_encf (wit_val (VInt (10 ^ 400))))) (decode_gen no_decf (wit_dc TInt))
+  = Ok (wit_val (VInt (10 ^ 400))).
+Proof. exact roundtrip_huge_int. Qed.
+Print Assumptions C05_huge_int.
 
 (* every lenient raw encoding (numbers / bools as strings, ints for floats, tuples and sets as lists, missing keys of
    defaulted fields, fields with a decoding_fn) decodes to the same instance *)
@@ -79,7 +81,7 @@ Definition nv_val : value :=
                                                                                                    ("u", plain_meta, VStr "abc")]])]);
                     ("t", plain_meta, VTup [VFlt "0.125"; VPath "."])].
 Example C05_nonvacuous :
-  (ser_type DC_TYPE_KEY nv_ty = true /\ has_type nv_val nv_ty = true /\ plain_value nv_val = true /\ ints_small nv_val = true)
+  (ser_type DC_TYPE_KEY nv_ty = true /\ has_type nv_val nv_ty = true /\ plain_value nv_val = true)
   /\ union_safe (decode_gen no_decf) (encode_gen sigma_rev no_encf) nv_ty nv_val = true
   /\ bind (run_transport TrJson (to_dict_gen sigma_rev no_encf nv_val)) (decode_gen no_decf nv_ty) = Ok nv_val.
 Proof. vm_compute. repeat split; reflexivity. Qed.
